@@ -873,6 +873,31 @@ func (w *world) Do(line string) string {
 			return "bad-op"
 		}
 		return w.provide(f[1], f[2])
+	case "ppushn": // ppushn <pid> <k> <key> <n> <s> <flags>: ONE call of the variadic push function with k records (N = n, n+1, …)
+		if len(f) != 7 || w.reg == nil || w.pushes[f[1]] == nil || !okKey(f[3]) || !okStr(f[5]) || !okFlags(f[6]) {
+			return "bad-op"
+		}
+		k, err1 := strconv.Atoi(f[2])
+		n, err2 := strconv.ParseInt(f[4], 10, 64)
+		if err1 != nil || err2 != nil || k < 2 || k > 4 || strings.HasPrefix(f[2], "+") || strings.HasPrefix(f[2], "0") {
+			return "bad-op"
+		}
+		recs := make([]record.Record, k)
+		for j := range recs {
+			recs[j] = w.newRec(f[3], n+int64(j), f[5], unq(f[6]))
+		}
+		func() {
+			for _, r := range recs {
+				r.Lock()
+			}
+			defer func() {
+				for _, r := range recs {
+					r.Unlock()
+				}
+			}()
+			w.pushes[f[1]](recs...)
+		}()
+		return "ok" + w.takeCalls()
 	case "ppush": // ppush <pid> <key> <n> <s> <flags>: the push function Register returned for provider <pid>
 		if len(f) != 6 || w.reg == nil || w.pushes[sel(f, 1)] == nil || !okKey(f[2]) || !okStr(f[4]) || !okFlags(f[5]) {
 			return "bad-op"
